@@ -175,7 +175,7 @@ def main():
             n_eq = n_ne = 0
             fxf = ['fixture self-test crashed: %r' % (e,)]
         cov['fixture_selftest'] = {'equal_pairs': n_eq, 'distinct_pairs': n_ne, 'failures': fxf}
-        if fxf or n_eq < 28 or n_ne < 17:
+        if fxf or n_eq < 31 or n_ne < 18:
             rc = max(rc, 2)
             print('CHECKER-FAILURE: evaluator fixture self-test: ' + '; '.join(fxf[:2])[:400])
         # ---- (b) self-test matrix
